@@ -54,7 +54,7 @@ CHECKS = {
    quick_timeout=900, thorough_timeout=21600),
  'C08': dict(
    category='fault_enumeration', design_ref='DESIGN.md 3.3',
-   text='Fault enumeration over the introspected registry: every visible parameter of every function of the default and legacy chains whose declared type accepts an iterator/sequence/set/mapping (187 + 212 positions, decided by the type check itself, so new functions are covered automatically) is fed in turn by endless / boundary-length (N-1, N, N+1) instrumented sources, sized collections at the boundary and library-made endless generators (itertools proxied to budgeted sources), for N in {0,1,2,3,7,10,100}, with consumer/nesting wrappers (toList, len, first, where(false).first, [x], {a=>x}, [[x]], select([$, [$,$]])), conversion on/off. Monitors: pulls per source <= N+1, termination inside logical budgets (50(N+1) pulls, 4M call events), no collection > N at any depth of a result. Quota family: growth chains (+, *, join, replace, accumulate, toDict, groupBy, distinct, memorize, format) incl. non-ASCII strings, over-quota host values and literals, Q placed just above the operands: no measured argument seen by any payload and no returned value exceeds Q; huge repetitions must refuse with a tracemalloc peak < 5 MB. Every position is visited each quick run; other choices are seeded.',
+   text='Fault enumeration over the introspected registry: every visible parameter of every function of the default and legacy chains whose declared type accepts an iterator/sequence/set/mapping (187 + 212 positions, decided by the type check itself, so new functions are covered automatically) is fed in turn by endless / boundary-length (N-1, N, N+1) instrumented sources, sized collections at the boundary and library-made endless generators (itertools proxied to budgeted sources), for N in {0,1,2,3,7,10,100}, with consumer/nesting wrappers (toList, len, first, where(false).first, [x], {a=>x}, {x=>1} as a key, [[x]], select([$, [$,$]])), conversion on/off; a second target list feeds the stream as the RESULT of every Lambda-typed parameter (producer/selector), boolean options enumerated. Monitors: pulls per source <= N+1, termination inside logical budgets (50(N+1) pulls, 4M call events), no collection > N at any depth of a result. Quota family: growth chains (+, *, join, replace, accumulate, toDict, groupBy, distinct, memorize, format) incl. non-ASCII strings, over-quota host values and literals, Q placed just above the operands: no measured argument seen by any payload and no returned value exceeds Q; huge repetitions must refuse with a tracemalloc peak < 5 MB. Every position is visited each quick run; other choices are seeded.',
    note='Trusted: payload shims measuring sys.getsizeof of arguments, SimSource pull counters, sys.settrace call-event counter as logical clock, RLIMIT_AS 6 GB per worker. CPython cannot make a single allocation fail, so memory is monitored, not faulted.',
    technique='deterministic simulation with fault enumeration: instrumented endless/oversize/boundary streams injected at every introspected collection parameter, logical step budgets instead of a watchdog, payload-argument size monitors, tracemalloc, shrinking + replay (with process-history prelude)',
    quick_timeout=900, thorough_timeout=21600),
@@ -66,7 +66,7 @@ CHECKS = {
    quick_timeout=900, thorough_timeout=21600),
  'C18': dict(
    category='exploration', design_ref='DESIGN.md 3.7',
-   text='Seeded search over schedules at line granularity: 2-4 simulated host threads evaluate 1-3 (statement, document) pairs each, on one engine, each in its own child of one shared prepared context (one flavour goes through yaql.eval and its module-level caches). Statements: ~90 hand-written pipelines building stateful lazies (orderBy/thenBy, groupBy aggregators, memorize, join, def/let chains, regex, datetimes with offsets), the C09 statements, 740 harvested test expressions, introspective library calls; same or different statements per thread, equal or per-thread documents. The baton scheduler pre-empts between any two Python lines of yaql frames and at stream pulls, under three policies: random quanta (mean 3..3000 lines), PCT-style d switch points sized from the measured sequential run, and write-point targeting (switch right after a statically detected store into an attribute/subscript/global or a mutator call, sites weighted by rarity). Oracle: every result equals the run-alone result computed before the threads start; shared context chain snapshot unchanged. Mismatches are confirmed by re-running the recorded schedule.',
+   text='Seeded search over schedules at line granularity: 2-4 simulated host threads evaluate 1-3 (statement, document) pairs each, on one engine, each in its own child of one shared prepared context (one flavour goes through yaql.eval and its module-level caches). Statements: ~90 hand-written pipelines building stateful lazies (orderBy/thenBy, groupBy aggregators, memorize, join, def/let chains, regex, datetimes with offsets), the C09 statements, 740 harvested test expressions, introspective library calls; same or different statements per thread, equal or per-thread documents. The baton scheduler pre-empts between any two Python lines of yaql frames and at stream pulls, under three policies: random quanta (mean 3..3000 lines), PCT-style d switch points sized from the measured sequential run, and write-point targeting (switch right after a statically detected store into an attribute/subscript/global or a mutator call, sites weighted by rarity). Oracle: every result equals the run-alone result computed before the threads start; shared context chain snapshot unchanged. One run in four uses a cold context chain (fresh create_context(), oracle from a warm twin) so that first-use / lazy-initialisation races are reachable; the shared context also holds yaqlized host objects (fresh for the concurrent phase). Mismatches are confirmed by re-running the recorded schedule.',
    note='Trusted: baton scheduler and sys.settrace delivery; canonical overload-set order via simulator-assigned FunctionDefinition hashes; cyclic GC disabled inside a run; pre-emption only between Python lines of yaql frames (dependencies run atomically).',
    technique='deterministic simulation: seeded baton scheduler over real threads with sys.settrace line-level pre-emption (random / PCT / write-point policies), run-alone oracle + shared-context snapshot, schedule shrinking + replay',
    quick_timeout=1200, thorough_timeout=21600),
